@@ -27,8 +27,8 @@ CHECKS = {
         text="Configuration sweep (buffer sizes 0..64 dense, residues near 4K/8K/64K/1M, random) with preambles whose critical pair sits exactly at the documented bound, under all chunk styles incl. exact-fill reads; effective size formula checked; after every parse() with done == false the input buffer must be non-empty.",
         note="Trusted: M-preamble. B-12..B-8 and beyond-buffer pairs are run for totality and honest StuckOnInput reporting, not asserted to parse.",
         technique=TECH + ": configuration/schedule search over request::Parser"),
-    "C18": dict(engine="D1", cat="exploration", ref="DESIGN.md 4/C18",
-        text="The 27-row selection table (3 roles x current x requested) is decided exhaustively on every run of the check; histories with every stream type in every order and set_stream at arbitrary moments (early advance, re-selection, every rejected selection) are searched by seed and compared with M-stream.",
+    "C18": dict(engine="D1+D2", cat="exploration", ref="DESIGN.md 4/C18",
+        text="The 27-row selection table (3 roles x current x requested) is decided exhaustively on every run of the check; histories with every stream type in every order and set_stream at arbitrary moments (early advance, re-selection, every rejected selection) are searched by seed and compared with M-stream; rejected selections are attempted at arbitrary moments (mid-record included) and must change nothing. The async side (Request::set_stream, writeable()) is exercised by the C09 connection scenario registered here as async_selection.",
         note="Trusted: M-stream's hold-back rule. Non-stream record types as selections are outside the statement (debug assertion).",
         technique=TECH + ": exhaustive table + seeded history search over stream::Parser"),
     "C03": dict(engine="D1", cat="exploration", ref="DESIGN.md 4/C03",
@@ -52,7 +52,7 @@ CHECKS = {
         note="Trusted: M-stream, M-conn. Compliant client.",
         technique=TECH + ": deterministic executor + simulated transport, handler-visible reads vs. reference model"),
     "C10": dict(engine="D2", cat="exploration", ref="DESIGN.md 4/C10",
-        text="1..3 writers on separately woken sub-futures plus a reader sub-future, seeded poll order, write sizes incl. 0/65535/65536+, flushes, a transport cutting every vectored write anywhere (inside the header, at the seam, inside padding) or returning Pending: the transport log must decode into complete records which, in completion order, equal the successful writes (type, id, payload, padding rule), with management replies as whole records.",
+        text="1..3 writers on separately woken sub-futures plus a reader sub-future, seeded poll order, write sizes incl. 0/65535/65536+, flushes, a transport cutting every vectored write anywhere (inside the header, at the seam, inside padding) or returning Pending: the transport log must decode into complete records which, in completion order, equal the successful writes (type, id, payload, padding rule), with management replies as whole records. Writes are sometimes re-polled with a longer buffer than the one that set the record up, and a third of the runs inject one transient write error after which the writers retry (documented: the lock is kept and the record continued).",
         note="Trusted: wire decoder; completion order equals lock-release order in a single-threaded executor.",
         technique=TECH + ": deterministic executor with per-sub-future wakers + write-cutting transport, log decoded and compared"),
     "C11": dict(engine="D1+D2", cat="exploration", ref="DESIGN.md 4/C11",
@@ -60,7 +60,7 @@ CHECKS = {
         note="Trusted: M-stream/M-conn abort rules. Empty Stdout/Stderr records after an abort are treated as optional.",
         technique=TECH + ": caller-schedule simulator + deterministic executor, abort placed at seeded record positions"),
     "C12": dict(engine="D2", cat="fault_enumeration", ref="DESIGN.md 4/C12",
-        text="Per seeded scripted connection the fault points are enumerated: EOF at every input byte offset, a read error at every read call, a one-shot write error and a one-shot zero-length write at every write call, each in a fresh run replaying the script's choice list. Checked: termination without panic or spinning, no handler for an incompletely received preamble, end-of-file seen by a handler only behind a delivered terminator (short reads surface as errors), no write after a failed write, log = well-formed prefix consistent with the handler log.",
+        text="Per seeded scripted connection the fault points are enumerated: EOF at every input byte offset, a read error at every read call, a one-shot write error and a one-shot zero-length write at every write call, each in a fresh run replaying the script's choice list. Checked: termination without panic or spinning, no handler for an incompletely received preamble, end-of-file seen by a handler only behind a delivered terminator (short reads surface as errors), no write after a failed write, no transport read after a reported read error (error kinds ConnectionReset / Interrupted / TimedOut / Other drawn per script), log = well-formed prefix consistent with the handler log.",
         note="Trusted: executor step cap as the spin detector (a poll that never returns would hang the check instead). Handlers propagate I/O errors.",
         technique=TECH + ": fault-point enumeration over a replayed seeded script (EOF / read error / write error / zero write at every index)"),
     "C14": dict(engine="D2+D3+D5", cat="exploration", ref="DESIGN.md 4/C14",
@@ -68,7 +68,7 @@ CHECKS = {
         note="Trusted: executor strictness for the wake-up clauses; the thread scheduler is sequentially consistent and does not explore interleavings inside futures' AtomicWaker. A management reply being written by an idle connection may be cut by shutdown (statement is silent).",
         technique=TECH + ": deterministic executor with shutdown as a scheduled event + serialising thread scheduler (baton) over real threads"),
     "C13": dict(engine="D2+D5", cat="exploration", ref="DESIGN.md 4/C13",
-        text="Seeded histories over a runner (limit 1..4) and its clones: get_token futures created, polled with their own wakers, cancelled; tokens dropped unused, run to completion on simulated connections (client closes, one request, handler panic unwinding through Token::run); after every operation the live-token count is compared with the limit and, whenever a slot is free with requests queued, at least one queued request must have been woken since it last returned Pending; first-poll and woken-poll readiness are checked. The generator is biased towards two queued requests with two releases between polls (the coalescing shape). Thread clause: a program with a dropper thread and an acquirer polling queued get_token futures is interpreted by Miri under 64 (quick) / 4096 (thorough) seeded schedules with preemption anywhere; afterwards no slot may be free next to an un-woken pending request.",
+        text="Seeded histories over a runner (limit 1..4) and its clones: get_token futures created, polled with their own wakers, cancelled; tokens dropped unused, run to completion on simulated connections (client closes, one request, handler panic unwinding through Token::run); after every operation the live-token count is compared with the limit and, whenever a slot is free with requests queued, at least one queued request must have been woken since it last returned Pending; first-poll and woken-poll readiness are checked; requests are created by calling get_token() at creation time (created-but-unpolled futures are part of the histories) and connection tasks are advanced a few scheduler steps at a time between runner operations. The generator is biased towards two queued requests with two releases between polls (the coalescing shape). Thread clause: a program with a dropper thread and an acquirer polling queued get_token futures is interpreted by Miri under 64 (quick) / 4096 (thorough) seeded schedules with preemption anywhere; afterwards no slot may be free next to an un-woken pending request.",
         note="Trusted: nothing inside async-lock/event-listener is modelled; they run as real code; in the history driver interleavings inside them are not explored (single thread, operation granularity), in the Miri extra they are (sampled by seed, sequentially consistent plus Miri's weak-memory emulation).",
         technique=TECH + ": seeded operation histories with per-future wakers against a counter model"),
 }
